@@ -896,7 +896,22 @@ func ruleConstCacheFloat(c *Ctx, rule string) {
 					ok2 = all
 				}
 			}
-			c.Check(rule, fmt.Sprintf("%s | constsCache[%s]", fnName(fn), describe(key)), l.Pos(ins.Pos()), ok2, "the sign of a zero Float is examined on every path to the cache access",
+			// ... and no path on which the sign test came out "negative" reaches the cache
+			// at all (not for a lookup either: the key equals the positive zero's)
+			if ok2 {
+				if paths, ok := pathGuardSets(ins.Block()); ok {
+					for _, p := range paths {
+						for _, g := range p {
+							if cl, isCall := g.If.Cond.(*ssa.Call); isCall && g.Truth {
+								if f := cl.Call.StaticCallee(); f != nil && f.Pkg != nil && f.Pkg.Pkg.Path() == "math" && f.Name() == "Signbit" {
+									ok2 = false
+								}
+							}
+						}
+					}
+				}
+			}
+			c.Check(rule, fmt.Sprintf("%s | constsCache[%s]", fnName(fn), describe(key)), l.Pos(ins.Pos()), ok2, "the sign of a zero Float is examined on every path to the cache access, and the negative zero never reaches it",
 				"a Float constant reaches the value-keyed constant cache without its sign having been examined: 0.0 and -0.0 are one map key, so the literal the optimizer folds `-0.0` into shares the slot of 0.0 and the optimized script prints 0 where the unoptimized prints -0")
 		})
 	}
